@@ -24,6 +24,20 @@ PROPS = {
                         "client-side kernel timestamp faults are outside the property's quantifier and are not injected here",
                         "SCION half of the property: see C13/C15 worlds (not covered by this check)"],
     },
+    "C05": {
+        "level": "exploration",
+        "budget": {"quick": 80, "thorough": 900},
+        "runs": {"quick": 5000, "thorough": 500000},
+        "rule": "one run = 4..23 measurements of the real IPClient (basic or interleaved mode; with NTS over the real key exchange in 1/3 of the runs) against real listeners while an attacker that sees each request "
+                "delivers 1..2 crafted datagrams before the genuine response (withheld in 1/4 of the attacked exchanges): arbitrary bytes, the genuine response with LI / version / mode / stratum / origin / receive / transmit changed, "
+                "origin zeroed, transmit before receive, another source address or port, replays of earlier responses, forged responses from another source, the request reflected, NTS fields stripped or unique identifier changed; "
+                "non-trivial = at least one crafted datagram and two measurements; distinct = distinct event-log hash",
+        "required_probes": ["clean-exchange", "succeeded-under-attack", "measurement-failed"],
+        "components": {"real": ["core/client IPClient receive loop", "net/ntp ValidateResponseMetadata/Timestamps", "net/nts DecodePacket/ProcessResponse", "core/server runIPServer"],
+                       "stub": dict(STUBS_COMMON, **{"kernel UDP": "simnet", "attacker": "scripted injector"})},
+        "assumptions": ["'comes from the queried server' is judged on the source address (a reply may come from any port of that address)",
+                        "IP transport only in this check (the SCION source/destination clause is exercised by C13's world)"],
+    },
     "C06": {
         "level": "exploration",
         "budget": {"quick": 60, "thorough": 900},
@@ -200,7 +214,7 @@ NOT_APPLICABLE = {
 
 # Properties that the design claims but whose world is not built yet (kept current).
 NOT_YET = {p: "designed (DESIGN.md section 3) but the simulated world is not built yet; not claimed until its check runs"
-           for p in ["C05", "C08", "C13", "C14", "C15"]}
+           for p in ["C08", "C13", "C14", "C15"]}
 
 PROPS["C01"].update(
     level_text="seeded exploration of multi-round histories of the real synchronization loop with scripted sources (values over the whole int64 range, failures, late answers, sources that never answer) and admissible/inadmissible configurations; per-round invariants: exactly one correction, magnitude bounds from the statement, exact value when every source answered in time, correction no later than the round's timeout; start-up refusal of inadmissible settings. Evidence, not proof.",
@@ -218,6 +232,10 @@ PROPS["C03"].update(
     level_text="seeded exploration of exchange histories between the real IP client and the real IP listeners on a simulated network with loss, duplication, delay, reordering, clock offset/skew/steps and timestamp faults; for every accepted exchange the four combined timestamps are attributed to one exchange by the simulator's ground truth and the reported offset is compared with the true clock offset against half the true round-trip delay. Evidence, not proof.",
     level_note="IP transport only in this check; trusts the simulated kernel (timestamps, error queue) and clocks; 16 ns rounding allowance",
     technique="deterministic simulation with fault injection: seeded network/clock faults, ground-truth oracle per accepted exchange")
+PROPS["C05"].update(
+    level_text="seeded exploration with an on-path attacker: differential oracle - an offset may be reported only if the datagram the client consumed last satisfies the statement's predicate (source, origin echo, metadata, timestamps order, NTS identifier and AEAD recomputed independently), and an untouched exchange must succeed. Evidence, not proof.",
+    level_note="skip-or-error is not distinguished (both allowed); IP transport only",
+    technique="deterministic simulation with fault injection: attacker-injected datagrams, differential acceptance predicate")
 PROPS["C06"].update(
     level_text="seeded exploration of request/update histories and statement-level interleavings on the real store; every reply and every state change is judged by a relation written from the statement (receive timestamp, uniqueness, basic/interleaved structure, which transmit time may be served, what an update may change, no cross-client serving). Evidence, not proof.",
     level_note="relational oracle on store snapshots taken at mutex acquire/release; the replacement choice inside a client's eight slots is left open as the statement does",
